@@ -29,6 +29,11 @@ HOSTILE = [
     ["GOPROXY", "GOFLAGS", "=weird", "EMPTY=", "GOFLAGSX=-mod=mod", "CGO_ENABLEDX=1", "XGOPROXY=direct"],
     ["GO111MODULE=off", "GONOSUMDB=", "GOINSECURE=*", "GONOSUMCHECK=1", "GOPRIVATE=*", "LANG=C.UTF-8", "ünï=cödé"],
     ["GOTOOLCHAIN=local", "GOWORK=off", "GOFLAGS=-mod=readonly", "GOPROXY=off", "CGO_ENABLED=0"],
+    # values that hide a second flag behind the separators the go command splits GOFLAGS on (space, tab, CR, LF)
+    ["GOFLAGS=-tags=integration\t-mod=mod", "GOPROXY=off\tdirect", "FOO=a\tb"],
+    ["GOFLAGS=-tags=a,b\n-mod=mod", "GOWORK=off\n/tmp/w.work", "CGO_ENABLED=0\n1"],
+    ["GOFLAGS=-trimpath\r-mod=vendor -tags=x", "GOTOOLCHAIN=local\tgo1.99.0"],
+    ["GOFLAGS=-tags=x --mod=mod", "GOFLAGS=-ldflags=-mod=mod -tags=y"],
 ]
 
 
@@ -41,7 +46,9 @@ def rand_env(rng):
             "GOWORK", "gowork", "GOTOOLCHAIN", "GoToolchain", "GO111MODULE", "GONOSUMDB", "GOCACHEX", "HOME2",
             "PATHY", "FOO", "foo", "", "TERM", "A B", "GODEBUG"]
     vals = ["0", "1", "off", "on", "direct", "-mod=mod", "-mod=readonly", "-mod=vendor -x", "=x=y", "", "local",
-            "auto", "https://proxy.example/,direct", "a b c", "ü"]
+            "auto", "https://proxy.example/,direct", "a b c", "ü",
+            "-tags=x", "-tags=x -mod=mod", "-tags=x\t-mod=mod", "-tags=x\n-mod=mod", "-tags=x\r-mod=vendor",
+            "-mod=readonly\t-mod=mod", "--mod=mod", "-tags=a,b -trimpath", "off\ton", "0\n1"]
     env = []
     for _ in range(rng.choice([0, 1, 3, 6, 10])):
         k = rng.choice(keys)
@@ -114,7 +121,7 @@ def check(ctx):
             ["scan", "--no-sandbox", "--deps", "--db", db, os.path.join(tgt, "new")],
             ["scan", "--no-sandbox", "--deps", "--deps-depth", "transitive", "--db", db, os.path.join(tgt, "new", "a.go")]]
     runs = []
-    hostile = HOSTILE if thorough else HOSTILE[:3]
+    hostile = HOSTILE if thorough else HOSTILE[:3] + [HOSTILE[6 + ctx.seed % 4]]
     for henv in hostile + [rand_env(rng) for _ in range(6 if thorough else 2)]:
         for c in cmds:
             runs.append({"env": henv + base_env, "argv": c, "dir": tgt})
